@@ -102,6 +102,10 @@ theorem parents_df_unchanged (ops : List Op) (pool : List DS) (i : Nat) (d : DS)
 example : (run [Op.select 0 (.idx (.slice (some 1) (some 3) none)), .shuffle 0 [5, 4, 3, 2, 1, 0], .split 1]
     [ds6]).1[0]? = some ds6 := by decide
 
+-- a column selection and two materializations: datasets 0 and 1 keep their rows and column sets.
+example : ((run [Op.colSelect 0 ["c"], .materialize 1, .materialize 0] [fresh6]).1.map fun d =>
+    (d.cols, d.materialized, d.df.length)) = [(["rid", "c", "y"], true, 6), (["c", "y"], true, 6)] := by decide
+
 /-! ## split lookups -/
 
 /-- **getSplit_positional.**  On an aligned materialized dataset, for any index labels and any row
@@ -124,6 +128,10 @@ theorem getSplit_positional_after_history (ops : List Op) (pool : List DS) (hw :
     ∃ d', d.getSplit name = some d' ∧ d'.df = d.df.filter (fun r => r.split == k) ∧
       d'.tf = (d.df.filter (fun r => r.split == k)).map enc ∧ d'.materialized = true :=
   getSplit_positional d name k (run_wf ops pool hw d hd) hm hs hdf hk
+
+-- the hypotheses of the history version are satisfiable: a fresh and a materialized pool are well-formed.
+example : PoolWF [fresh6] ∧ PoolWF [ds6] := by
+  constructor <;> intro d hd <;> simp only [List.mem_singleton] at hd <;> subst hd <;> decide
 
 /-- `split()` is the three lookups. -/
 theorem split_is_three_lookups (d : DS) (hal : d.Aligned) (hm : d.materialized = true)
@@ -289,6 +297,8 @@ theorem floorMul_is_floor (n : Nat) (r : Ratio) (hq : 0 < r.q) (hp : 0 ≤ r.p) 
     (floorMul n r : Int) * r.q ≤ n * r.p ∧ (n : Int) * r.p < ((floorMul n r : Int) + 1) * r.q :=
   floorMul_spec n r hq hp
 
+example : floorMul 10 ⟨3, 20⟩ = 1 ∧ floorMul 100 ⟨29, 100⟩ = 29 ∧ floorMul 7 ⟨1, 3⟩ = 2 ∧ floorMul 0 ⟨1, 2⟩ = 0 := by decide
+
 /-- **split_counts.**  Whenever the generator returns, for every behaviour of the numpy shuffle that
     is a permutation, the array has `length` entries, exactly `⌊length·train_ratio⌋` zeros,
     `⌊length·val_ratio⌋` ones (resp. the remainder when no test split is requested) and the remainder
@@ -371,13 +381,21 @@ theorem split_rejects {σ : Type} (R : Rng σ) (g : σ) (n seed : Nat) (rt rv : 
 theorem split_seed_only {σ : Type} (R : Rng σ) (g g' : σ) (n seed : Nat) (rt rv : Ratio) (it : Bool) :
     generate R g n seed rt rv it = generate R g' n seed rt rv it := rfl
 
-/-- a toy generator (state = a number; the "shuffle" rotates by the state) for the examples -/
+/-- a toy generator for the examples (state = a number; an odd state reverses, an even one keeps the order) -/
 def toyRng : Rng Nat :=
   { seed := fun s => s,
-    shuffle := fun g n => ((List.range n).rotateLeft (g % (n + 1)), g + 1) }
+    shuffle := fun g n => (if g % 2 = 1 then (List.range n).reverse else List.range n, g + 1) }
 
--- 10 rows, 0.7 / 0.15 with a test split: 7 train, ⌊1.5⌋ = 1 val, 2 test.
-example : (generate toyRng 99 10 3 ⟨7, 10⟩ ⟨3, 20⟩ true).map (·.1) = some [0, 0, 0, 0, 1, 2, 2, 0, 0, 0] := by
+-- the toy generator satisfies the hypothesis of `split_counts`
+example : ∀ g n, (toyRng.shuffle g n).1.Perm (List.range n) := by
+  intro g n
+  show (if g % 2 = 1 then (List.range n).reverse else List.range n).Perm (List.range n)
+  split
+  · exact List.reverse_perm _
+  · exact List.Perm.refl _
+
+-- 10 rows, 0.7 / 0.15 with a test split: 7 train, ⌊1.5⌋ = 1 val, 2 test (seed 3 reverses; the prior state 99 is irrelevant).
+example : (generate toyRng 99 10 3 ⟨7, 10⟩ ⟨3, 20⟩ true).map (·.1) = some [2, 2, 1, 0, 0, 0, 0, 0, 0, 0] := by
   decide
 -- 0.7 / 0.3 without a test split: 7 train, 3 val;  0.7 / 0.2 without: rejected;  0.8 / 0.2 with: rejected.
 example : ((generate toyRng 0 10 0 ⟨7, 10⟩ ⟨3, 10⟩ false).map (·.1)) = some [0, 0, 0, 0, 0, 0, 0, 1, 1, 1] ∧
